@@ -387,3 +387,10 @@ class NubWiring(Contract):
 
 
 REGISTRY.append(NubWiring())
+
+
+# C10 (exchange of the two dimensions) rests on the assembly contracts of _Slice as well: rows
+# and columns are assembled by mirror-image code, each proved against its own statement
+for _c in REGISTRY:
+    if _c.__class__.__module__ == __name__ and "C10" not in _c.props and ":_Slice" in _c.name:
+        _c.props = tuple(_c.props) + ("C10",)
